@@ -111,6 +111,7 @@ def run_c03(rep):
     import fam_reads
     fam_reads.reads_invisible(rep, sizes(rep, 25, 400), "C03")
     fam_reads.once_sessions(rep, sizes(rep, 30, 500))
+    fam_reads.retry_sessions(rep)
 
 
 def run_c04(rep):
@@ -218,7 +219,7 @@ C09_STORY = (":: Start\n~ ticks = 0\n~ silent = 0\n@hook turn_end Status\n@hook 
              ":: Road\nroad\n+ [status] -> Status\n+ [walk] -> Road\n+ [quiet] -> Quiet\n\n"
              ":: Status\n~ ticks = ticks + 1\nStatus {ticks}\n+ [back] -> Road\n+ [rest] -> @join\n    resting\n@join\nafter\n+ [back] -> Road\n+ [again] -> Status\n\n"
              # a hooked passage that shows nothing and whose only block holds hook lines (it unhooks itself after three runs)
-             ":: Quiet\n~ silent = silent + 1\n@if silent >= 3:\n  @unhook turn_end Quiet\n@endif\n+ [back] -> Road\n")
+             ":: Quiet\n~ silent = silent + 1\n@if silent >= 3:\n  @unhook   turn_end    Quiet\n@endif\n+ [back] -> Road\n")
 
 
 def c09_sessions(rep, n_walks):
@@ -350,6 +351,10 @@ def c09_swap_sessions(rep, n_walks):
 
 
 C10_SESSIONS = [
+    # a turn_end hook that fails on a '-> @join' turn: the choice raises, the screen it rendered stays, play goes on from it
+    (":: Start\n~ t = 0\n@hook turn_end Tick\ngo\n+ [in] -> J\n\n:: J\nS0\n+ [n1] -> @join\n@join\nS1\n+ [n2] -> @join\n@join\nS2\n+ [n3] -> @join\n@join\nS3\n+ [x] -> Start\n\n"
+     ":: Tick\n~ t = t + 1\n~ z = 1 % (2 - t)\n",
+     [{"op": "choose", "i": 0}, {"op": "choose", "i": 0}, {"op": "current"}, {"op": "choose", "i": 0}, {"op": "choose", "i": 0}], {4: "S3\n"}),
     # text-only blocks under repeatable join choices (nothing but the section progress changes), then undo: one section back
     (":: Start\ngo\n+ [in] -> J\n\n:: J\nS0\n+ [n1] -> @join\n    b1\n@join\nS1\n+ [n2] -> @join\n    b2\n@join\nS2\n+ [n3] -> @join\n@join\nS3\n+ [x] -> Start\n",
      [{"op": "choose", "i": 0}, {"op": "choose", "i": 0}, {"op": "choose", "i": 0}, {"op": "undo"}, {"op": "choose", "i": 0}, {"op": "choose", "i": 0}, {"op": "undo"}, {"op": "undo"}],
@@ -436,6 +441,29 @@ def c08_ring_probes(rep):
     rep.coverage["evaluations"] = rep.coverage.get("evaluations", 0) + n
 
 
+def c08_chain_probe(rep):
+    """a chain whose passages print nothing before they jump but issue render directives: text and directives of every passage
+    of the chain are kept, in chain order"""
+    src = (":: Start\nhi\n+ [go] -> A\n+ [loop] -> L\n\n:: A\n@render play_music('a')\n@if True:\n  -> B\n@endif\n\n"
+           ":: B\n@if True:\n  @render stamp(1)\n  -> C\n@endif\n\n:: C\n@for i in [1]:\n  @render mark(i)\n  -> D\n@endfor\n\n:: D\nend\n@render point(2)\n\n"
+           ":: L\n@render first(0)\nbefore\n@if True:\n  -> D\n@endif\n")
+    n = 0
+    for ops, want_names, want_text in (([{"op": "choose", "i": 0}], ["play_music", "stamp", "mark", "point"], "end\n"),
+                                       ([{"op": "choose", "i": 1}], ["first", "point"], "before\nend\n")):
+        c = corr_play.run_fixed(src, ops, case_id="c08-chain")
+        n += 1
+        if "compile_error" in c or c["real"].get("status") != "ok" or "out" not in c["real"]["steps"][0]["resp"]:
+            rep.violations.append({"cls": None, "family": "c08-chain", "what": "probe does not run: " + str(c.get("compile_error") or c["real"])[:200], "source": src, "ops": ops})
+            continue
+        out = c["real"]["steps"][0]["resp"]["out"]
+        names = [d.get("name") for d in out["rdirs"]]
+        if names != want_names or [l for l in out["content"].split("\n") if l] != [l for l in want_text.split("\n") if l]:
+            rep.violations.append({"cls": None, "family": "c08-chain", "source": src, "ops": ops, "variant": "main",
+                                   "what": f"the chain shows {out['content']!r} with render directives {names}; every passage of the chain contributes its text and its directives, in order: {want_text!r}, {want_names}"})
+    rep.coverage.setdefault("families", {})["c08-chain"] = {"cases": n}
+    rep.coverage["evaluations"] = rep.coverage.get("evaluations", 0) + n
+
+
 def run_c08(rep):
     n, ops = sizes(rep, (400, 14), (6000, 40))
     # (the chain's text must come with the FINAL passage's choices: the C02 oracle judges the offered list, join sections included)
@@ -444,6 +472,10 @@ def run_c08(rep):
                          weights=dict(choose=65, goto=12, undo=5, redo=3, read=8, bad=3),
                          oracle_names=["oracle_c08", "oracle_c02", "oracle_wasnow"], known_classes=known_classes("C08") | known_classes("C02"), label="c08")
     compile_tie(rep, "c08-compile", dict(top_jumps=0.6, block_jumps=0.7, loops=0.5, conds=0.8, params=0.3, odd_names=0.3))
+    c08_chain_probe(rep)
+    # the shipped game too: a bundle holds every passage a jump (at any depth, also inside @for) can reach
+    import fam_browser
+    fam_browser.bundle_check(rep, sizes(rep, 4, 12), rep.seed + 8)
     c08_ring_probes(rep)
 
 
@@ -476,6 +508,7 @@ def run_c05(rep):
     import fam_codec
     fam_codec.stdlib_observation_family(rep, sizes(rep, 300, 5000))
     fam_codec.same_name_probe(rep, "C05")
+    fam_codec.codec_family(rep, sizes(rep, 400, 6000), sizes(rep, 4, 8))      # every value class of the C06 family through a load
     n2, ops2 = sizes(rep, (300, 16), (4000, 40))
     families.play_family(rep, n2, ops2, features=dict(hooks=0.5, join=0.4, params=0.3),
                          weights=dict(choose=50, save=12, load=8, fresh=8, loadbad=4, undo=6, redo=3, goto=4, read=5),
@@ -598,6 +631,7 @@ def run_c16(rep):
     fam_share.engine_isolation(rep)
     fam_share.inputs_isolation(rep, sizes(rep, 40, 600))
     fam_share.mutating_sessions(rep)
+    fam_share.inputs_dict_probe(rep)
     import fam_reads
     fam_reads.reads_invisible(rep, sizes(rep, 15, 300), "C16")      # same inputs, same outputs, whatever is read in between
     # compilation is a function of the files as they are NOW: an included file edited between two compilations
